@@ -1,6 +1,6 @@
 #!/bin/bash
 # process_seed.sh Cxx : run our quick check against each seeded change, then confirm + save it
 id=$1
-/verif/tools/tryseed.py $id > /tmp/seed-out/$id/process.log 2>&1
-/verif/tools/save_seed.py $id >> /tmp/seed-out/$id/process.log 2>&1
-grep -E "^C[0-9]+/[0-9] confirmed" /tmp/seed-out/$id/process.log | cut -c1-400
+/verif/tools/tryseed.py $id > /tmp/seed${SEED_ROUND}-out/$id/process.log 2>&1
+/verif/tools/save_seed.py $id >> /tmp/seed${SEED_ROUND}-out/$id/process.log 2>&1
+grep -E "^C[0-9]+/[0-9] confirmed" /tmp/seed${SEED_ROUND}-out/$id/process.log | cut -c1-400
